@@ -40,14 +40,16 @@ fn recovery_weights() -> OpWeights {
 }
 
 fn crash_strat() -> impl Strategy<Value = Crash> {
-	(any::<u16>(), any::<u16>(), prop_oneof![Just(0u16), 0u16..3, any::<u16>()], any::<bool>()).prop_map(|(after, node, snap, landed)| Crash { after, node, snap, landed })
+	(any::<u16>(), any::<u16>(), prop_oneof![2 => Just(0u16), 2 => 0u16..3, 3 => 1u16..8, 1 => any::<u16>()], any::<bool>()).prop_map(|(after, node, snap, landed)| Crash { after, node, snap, landed })
 }
 
 fn strat(max_ops: usize) -> impl Strategy<Value = Case> {
 	(
 		world_spec(vec![Topology::Pair, Topology::Line3, Topology::Line3, Topology::Diamond]),
 		proptest::collection::vec(op_strategy(weights()), 10..max_ops),
-		proptest::collection::vec(proptest::bool::weighted(0.6), 7),
+		// how often the manager is written varies per case: the lag of the snapshot behind the monitors is what
+		// most restart defects need
+		prop_oneof![Just(0.15f64), Just(0.35), Just(0.6), Just(0.85)].prop_flat_map(|p| proptest::collection::vec(proptest::bool::weighted(p), 7)),
 		proptest::collection::vec(crash_strat(), 1..3),
 		proptest::collection::vec(op_strategy(recovery_weights()), 0..12),
 	)
@@ -179,6 +181,7 @@ fn oracle_inner(c: &Case, ctx: &mut Ctx, sim: &mut Sim) -> CaseResult {
 	ctx.label_if(crashed > 1, "crashed-twice");
 	ctx.label_if(mined > 0, "on-chain-resolution");
 	ctx.label_if(st.claimed_then_sent > 0, "claim-replayed-to-sender");
+	ctx.label_if(st.dust_forfeited_after_stale_restart > 0, "dust-htlc-forfeited-after-stale-restart");
 	ctx.label_if(st.htlcs_pending_at_crash > 0, "htlcs-pending-at-crash");
 	ctx.label(match c.spec.topo {
 		Topology::Pair => "topo:pair",
@@ -228,7 +231,7 @@ fn main() {
 		PartSpec {
 			name: "restart-sampled",
 			rule: "pair / line / diamond worlds, generated payment flows with async persistence; manager snapshots at generated persistence points; 1-2 crashes at generated positions (second possibly during recovery) restarting a generated node from a generated snapshot lag and durable-or-landed monitors; then reconnect, resolve payments, mine to full resolution. Checked: deserialization succeeds, monitor-ahead channels are closed as OutdatedChannelManager and not resumed, revocation rules hold across restarts, every broadcast is consensus-valid, PaymentSent is truthful and never contradicted, a claim acknowledged to the recipient reaches PaymentSent at the sender. Non-trivial: HTLCs pending at the crash and the manager lagged a monitor or an async write was lost",
-			quick_cases: 600,
+			quick_cases: 1500,
 			thorough_cases: 60_000,
 			max_shrink: 300,
 		},
